@@ -284,6 +284,12 @@ class Repository(BitBucketObject, base.AbstractRepository):
                 return 'NOTSTARTED'
             raise
         else:
+            # A webhook may have recorded a successful build for this
+            # revision while we were waiting for the host: never downgrade it
+            # (same rule as the webhook handlers).
+            cached = cache.BUILD_STATUS_CACHE[key].get(revision, None)
+            if cached and cached.state == 'SUCCESSFUL':
+                return cached.state
             return cache.BUILD_STATUS_CACHE[key].set(revision, status).state
 
     def invalidate_build_status_cache(self):
